@@ -503,6 +503,25 @@ type Stats struct {
 	Points     int
 	MaxPoints  int
 	Capped     bool
+	// Retries: executions repeated because the program did not reach the recorded prefix again
+	// (control flow that depends on something the scheduler does not own, e.g. Go's map iteration
+	// order inside the code under test); Unreplayable: prefixes given up after maxRetries attempts
+	// (their subtrees are NOT explored: the exploration is then not exhaustive).
+	Retries      int
+	Unreplayable int
+}
+
+const maxRetries = 40
+
+// RunRetry is Run, repeated while the recorded prefix does not fit (see Stats.Retries).
+func RunRetry(mk func() []func(), prefix []int, onStep func(int, string)) (*Exec, int) {
+	x := Run(mk(), prefix, onStep)
+	n := 0
+	for x.Diverged != "" && n < maxRetries {
+		n++
+		x = Run(mk(), prefix, onStep)
+	}
+	return x, n
 }
 
 // Explore enumerates all schedules of the program produced by mk with at most `bound`
@@ -517,7 +536,12 @@ func Explore(mk func() []func(), bound int, maxExec int, onStep func(int, string
 			st.Capped = true
 			return
 		}
-		x := Run(mk(), prefix, onStep)
+		x, retries := RunRetry(mk, prefix, onStep)
+		st.Retries += retries
+		if x.Diverged != "" {
+			st.Unreplayable++
+			return
+		}
 		st.Executions++
 		st.Points += len(x.Points)
 		if len(x.Points) > st.MaxPoints {
